@@ -24,6 +24,7 @@ import (
 	"github.com/btcsuite/btcwallet/wtxmgr"
 
 	"verif/harness/internal/common"
+	"verif/harness/internal/faultdb"
 	"verif/harness/internal/mockchain"
 )
 
@@ -120,6 +121,8 @@ type spWorld struct {
 	coinOf   map[wire.OutPoint]int
 	sendTx   map[int]*wire.MsgTx // send number -> created tx
 	sendAcct map[int]int
+	lastErr  error // result of the last SendOutputs / SendOutputsWithInput call
+	called   bool
 	foreign  []byte
 	diffs    [][4]interface{}
 	n        int
@@ -135,6 +138,7 @@ var spOwns = map[string]map[string]bool{
 	"C06": {"inputs": true, "sig": true, "refusal": true, "eligibility": true, "psbt-refusal": true},
 	"C20": {"state": true, "balance": true, "resend": true, "answer": true},
 	// wallet-level passes of the transaction-store properties
+	"C10": {"fault": true},
 	"C01": {"balance": true},
 	"C13": {"history": true},
 }
@@ -190,10 +194,74 @@ func replaySpend(idx int, line []byte, prop string, seed int, root string, rep *
 			json.Unmarshal(st.A, &a)
 		}
 		w.diffs = nil
+		if prop == "C10" && (st.Op == "Send" || st.Op == "SendExplicit") && st.Ret == "ok" && (a.Ans == "" || a.Ans == "accepted") {
+			// wallet-level fault enumeration: the k-th database write of the whole operation (all its
+			// transactions) fails, for k = 1, 2, ... until a run meets no fault - that run is the real execution
+			var pre *spObs
+			if si > 0 && len(tr.Steps[si-1].Exp) > 0 && tr.Steps[si-1].Exp[0] == '{' {
+				pre = new(spObs)
+				json.Unmarshal(tr.Steps[si-1].Exp, pre)
+			} else if si == len(tr.Steps)-1 && len(tr.Pre) > 0 && tr.Pre[0] == '{' {
+				pre = new(spObs)
+				json.Unmarshal(tr.Pre, pre)
+			}
+			if pre != nil {
+				stop := false
+				for k := 1; k <= 400 && !stop; k++ {
+					inj := &faultdb.Injector{FailAt: k}
+					e.fdb.Arm(inj)
+					w.diffs, w.called = nil, false
+					aerr := w.apply(st, &a, rep)
+					e.fdb.Arm(nil)
+					if aerr != nil {
+						rep.AddError("trace %d step %d (%s, fault at write %d): %v", idx, si, st.Op, k, aerr)
+						return
+					}
+					if !inj.Fired {
+						rep.Inc("fault_free_runs", 1)
+						goto executed
+					}
+					rep.Inc("faults_injected", 1)
+					rep.Nontriv(fmt.Sprintf("fault|%s|%d|%s", st.Op, k, inj.Kind))
+					w.diffs = nil // comparisons made by a faulted run are not verdicts
+					if serr := e.settle(); serr != nil {
+						report(si, [4]interface{}{"liveness", "wallet stopped processing notifications", serr.Error(), "drained"})
+						return
+					}
+					w.n++
+					if w.called && w.lastErr == nil {
+						w.add("fault", fmt.Sprintf("%s reports success although database write %d (%s) of the operation failed", st.Op, k, inj.Kind), "ok", "an error")
+						stop = true
+					} else {
+						// nothing of the operation may remain
+						w.observe(pre)
+						for i := range w.diffs {
+							if w.diffs[i][0] != "harness" {
+								w.diffs[i][0] = "fault"
+								w.diffs[i][1] = fmt.Sprintf("after %s failed at database write %d (%s): %v", st.Op, k, inj.Kind, w.diffs[i][1])
+							}
+						}
+						if len(w.diffs) > 0 {
+							stop = true
+						}
+					}
+				}
+				for _, d := range w.diffs {
+					if d[0].(string) == "harness" {
+						rep.AddError("trace %d step %d: %v %v %v", idx, si, d[1], d[2], d[3])
+						return
+					}
+					report(si, d)
+				}
+				rep.Inc("diverged_behaviours", 1)
+				break
+			}
+		}
 		if err := w.apply(st, &a, rep); err != nil {
 			rep.AddError("trace %d step %d (%s): %v", idx, si, st.Op, err)
 			return
 		}
+	executed:
 		if err := e.settle(); err != nil {
 			report(si, [4]interface{}{"liveness", "wallet stopped processing notifications", err.Error(), "drained"})
 			return
@@ -552,7 +620,7 @@ func (w *spWorld) apply(st *spStep, a *spArgs, rep *common.Report) error {
 		outs := []*wire.TxOut{wire.NewTxOut(amount, w.foreign)}
 		var tx *wire.MsgTx
 		var err error
-		label := ""
+		label := "verif-label" // every send carries a label, so the label write is part of the operation
 		if a.Ans == "badlabel" {
 			// a label the store refuses (longer than wtxmgr.TxLabelLimit): the wallet returns an error
 			label = strings.Repeat("x", wtxmgr.TxLabelLimit+1)
@@ -564,6 +632,7 @@ func (w *spWorld) apply(st *spStep, a *spArgs, rep *common.Report) error {
 		}
 		e.chain.SendAnswer = nil
 		e.chain.ArmNotifyRecvFailure(0)
+		w.lastErr, w.called = err, true
 		got := classify(err)
 		w.n++
 		if got != st.Ret {
